@@ -98,3 +98,34 @@ contract(JS + "JSONFormatter.eof", props=P, params={"self": "ref:JSONFormatter"}
                   "implies(old(truthy(self.current_feature_data)), G_js_n == %s + 2 and "
                   "G_js_tok(%s) == ('header' if old(self.feature_count) == 0 else 'feature_separator') and G_js_tok(%s + 1) == 'feature' "
                   "and self.feature_count == old(self.feature_count) + 1)" % (N0, N0, N0)})
+
+# -- progress3: problem steps are reported with their scenario, once --------------------------------------------
+PG = "behave.formatter.progress:"
+shape("ScenarioStepProgressFormatter", steps="seq:ref:Step", failed_steps="seq:ref:Step", error_steps="seq:ref:Step",
+      current_feature="any", current_rule="any", current_scenario="any", stream="any", show_timings="bool")
+for _m in ("report_scenario_progress", "report_scenario_duration", "report_failures"):
+    contract("abs:ScenarioStepProgressFormatter.%s" % _m, trusted=True, params={"self": "ref:ScenarioStepProgressFormatter"},
+             pos_params=["self"], pure=True, doc="writes to the stream only (the text is bounded: b_c15 progress)")
+contract(PG + "ScenarioStepProgressFormatter.report_scenario_completed", props=P,
+         params={"self": "ref:ScenarioStepProgressFormatter"}, self_classes=["ScenarioStepProgressFormatter"],
+         callsites={"self.report_scenario_progress": "abs:ScenarioStepProgressFormatter.report_scenario_progress",
+                    "self.report_scenario_duration": "abs:ScenarioStepProgressFormatter.report_scenario_duration",
+                    "self.report_failures": "abs:ScenarioStepProgressFormatter.report_failures"},
+         modifies=["self.failed_steps", "self.error_steps"],
+         ensures={"no-problem-step-of-this-scenario-is-carried-over-to-the-next-one (it would be reported again)":
+                  "len(self.failed_steps) == 0 and len(self.error_steps) == 0 and is_fresh(self.failed_steps) "
+                  "and is_fresh(self.error_steps) and self.failed_steps is not self.error_steps"},
+         doc="each processed step is shown exactly once: the failure/error queues are per scenario")
+
+# -- StreamOpener.close: only streams this opener opened are closed and forgotten --------------------------------
+FB = "behave.formatter.base:"
+shape("StreamOpener", name="any", stream="any", encoding="any", should_close_stream="bool")
+contract("abs:stream.close", trusted=True, pos_params=["self"], pure=True, doc="file.close()")
+contract(FB + "StreamOpener.close", props=P, params={"self": "ref:StreamOpener"}, self_classes=["StreamOpener"],
+         result="any", callsites={"self.stream.close": "abs:stream.close"}, modifies=["self.stream"],
+         exprs={"getattr(self.stream, 'closed', False)": ("fresh", "bool")},
+         ensures={"a-pre-opened-stream (stdout, a caller's stream) stays-attached: later formatters still write to it":
+                  "implies(not self.should_close_stream, self.stream is old(self.stream) and not truthy(result))",
+                  "an-own-stream-is-forgotten-once-closed": "implies(self.should_close_stream and truthy(old(self.stream)), is_none(self.stream))"},
+         doc="close() on an opener for sys.stdout or a caller's stream must be a no-op: the same opener object is used again "
+             "by the next formatter close / the next run (C15 'a single close' per formatter, not per shared stream)")
